@@ -389,6 +389,13 @@ func rsCompare(c *rsCase, rs *toolbox3d.RectSet, m *rsModel, st *rsStats, step s
 func rsBuild(c *rsCase, n [3]int, ops []rsOp, top bool, st *rsStats, kinds map[string]bool) (*toolbox3d.RectSet, *rsModel, error) {
 	rs := toolbox3d.NewRectSet()
 	m := newModel(n)
+	// argument sets of earlier AddRectSet/RemoveRectSet calls stay alive: two box sets never share state, so each
+	// must keep answering as its own model whatever is done to the other one afterwards
+	type keptSet struct {
+		rs *toolbox3d.RectSet
+		m  *rsModel
+	}
+	var kept []keptSet
 	if top {
 		if err := rsCompare(c, rs, m, st, "new set"); err != nil {
 			return nil, nil, err
@@ -427,11 +434,39 @@ func rsBuild(c *rsCase, n [3]int, ops []rsOp, top bool, st *rsStats, kinds map[s
 			if err := rsCompare(c, other, om, &rsStats{}, step+": the argument set"); err != nil {
 				return nil, nil, err
 			}
+			kept = append(kept, keptSet{other, om})
 		default:
 			return nil, nil, fmt.Errorf("%w: unknown op %q", kit.ErrInfra, op.Kind)
 		}
 		if top {
 			if err := rsCompare(c, rs, m, st, step); err != nil {
+				return nil, nil, err
+			}
+			for k, ks := range kept {
+				if err := rsCompare(c, ks.rs, ks.m, &rsStats{}, fmt.Sprintf("%s: argument set #%d of an earlier set operation (not touched since)", step, k)); err != nil {
+					return nil, nil, err
+				}
+			}
+		}
+	}
+	if top {
+		// ... and the other way round: editing an earlier argument set must not change the receiver
+		for k, ks := range kept {
+			var box [6]int
+			for a := 0; a < 3; a++ {
+				box[a], box[3+a] = 1+(k+a)%n[a], 2+(k+a)%n[a]
+			}
+			if !validBox(box, n) {
+				continue
+			}
+			ks.rs.Add(rsRect(c, box))
+			ks.m.add(box)
+			ks.rs.Remove(rsRect(c, [6]int{1, 1, 1, 2, 2, 2}))
+			ks.m.remove([6]int{1, 1, 1, 2, 2, 2})
+			if err := rsCompare(c, ks.rs, ks.m, &rsStats{}, fmt.Sprintf("argument set #%d after being edited on its own", k)); err != nil {
+				return nil, nil, err
+			}
+			if err := rsCompare(c, rs, m, &rsStats{}, fmt.Sprintf("the receiving set after argument set #%d of an earlier set operation was edited", k)); err != nil {
 				return nil, nil, err
 			}
 		}
